@@ -1,7 +1,9 @@
 """--parse-only emits enum members as annotated attributes (`RED: int`), which mypy rejects in a stub.
 
 Exit status 1 = defect present, 0 = absent, 2 = inconclusive (preconditions of the input failed).
-Mechanism keys: stub-typecheck:parse-only:misc:Detected enum "_" in a type stub with zero members. There is a chance this is due to a recent change in the se:enum"""
+Mechanism keys:
+  stub-typecheck:parse-only:misc:Detected enum '_' in a type stub with zero members. There is a chance this is due to a recent change in the se:enum
+"""
 import os
 import sys
 
